@@ -455,7 +455,7 @@ def standin_aqt(tier, seed):
         for _k in range(rng.randrange(1, 6)):
             a, b = rng.sample(qs, 2)
             e = rng.choice([0.5, 1, -0.5, 0.25, 0.37, 1.5])
-            ops.append(rng.choice([cirq.Z(a) ** e, cirq.PhasedXPowGate(phase_exponent=rng.choice([0, 0.5, 0.2]), exponent=e)(a), cirq.XX(a, b) ** e, cirq.XX(b, a) ** e]))
+            ops.append(rng.choice([cirq.Z(a) ** e, cirq.PhasedXPowGate(phase_exponent=rng.choice([0, 0.5, 0.2, -0.5, -0.3, 1.0, 1.25, -1.0, 1.75]), exponent=e)(a), cirq.XX(a, b) ** e, cirq.XX(b, a) ** e]))
         c = cirq.Circuit(ops)
         sampler = cirq_aqt.AQTSampler(workspace="w", resource="r", access_token="t")
         try:
@@ -509,7 +509,17 @@ def standin_aqt(tier, seed):
             fails.append(dict(args=dict(circuit=repr(c), num_qubits=seen["num_qubits"], payload=seen["payload"]), failed="aqt-register-size", clause="the payload addresses a qubit index outside the announced register"))
         elif any(rows[r][i] != int(i in flipped) for r in range(rows.shape[0]) for i in used):
             fails.append(dict(args=dict(circuit=repr(c), samples=rows.tolist()), failed="aqt-sample-columns", clause="column i of the samples is not the measurement of LineQubit(i)"))
-    return dict(function="cirq-aqt/cirq_aqt/aqt_sampler.py:AQTSampler._generate_json", case="aqt", bound="seeded circuits over Z/R/MS, 2-3 qubits, <= 5 ops; basis-state circuits on arbitrary subsets of 5 line qubits through the local sampler",
+    # a qubit without a register position (negative line index) is refused, not sent as an index counted from the end
+    for neg in (cirq.Circuit(flip.on(cirq.LineQubit(-1)), (cirq.Z ** 0.5).on(cirq.LineQubit(1))), cirq.Circuit((cirq.XX ** 0.5).on(cirq.LineQubit(0), cirq.LineQubit(-2)))):
+        cases += 1
+        try:
+            res = AQTSamplerLocalSimulator(simulate_ideal=True).run(neg, repetitions=2)
+            fails.append(dict(args=dict(circuit=repr(neg), samples=np.asarray(res.measurements["m"]).astype(int).tolist()), failed="aqt-negative-index", clause="a circuit on a line qubit with a negative index was run (the index addresses the register from its end)"))
+        except ValueError:
+            pass
+        except Exception as ex:
+            fails.append(dict(args=dict(circuit=repr(neg)), failed="aqt-negative-index", clause=f"a circuit on a line qubit with a negative index raised {type(ex).__name__}: {ex} instead of being refused"))
+    return dict(function="cirq-aqt/cirq_aqt/aqt_sampler.py:AQTSampler._generate_json", case="aqt", bound="seeded circuits over Z/R/MS (phase exponents in and outside [0, 1)), 2-3 qubits, <= 5 ops; negative line indices refused; basis-state circuits on arbitrary subsets of 5 line qubits through the local sampler",
                 cases=cases, distinct=cases, failures=len(fails), exhaustive=False, _fails=fails[:3])
 standin_aqt.prop = "C17"
 STANDINS = [standin_ionq, standin_aqt, standin_ionq_measurement_table, standin_ionq_jobs]
